@@ -1334,7 +1334,10 @@ class CompilerPassGatherCode(CompilerPass):
                 c = c.strip()
 
             if options.original_code_as_comment and line.node:
-                ori_line = original_code[line.node.lineno - 1]
+                source_lines = getattr(
+                    line.node.root(), "_source_lines", original_code
+                )
+                ori_line = source_lines[line.node.lineno - 1]
                 if prev_comment != ori_line:
                     c = c.ljust(just_width)
                     c += f" # {ori_line}"
